@@ -54,7 +54,7 @@ def main():
         checks = {}
         for p in [prop] + extra:
             t0 = time.time()
-            rc, out = sh(f"VERIF_REPO={wt} ./check {p} --tier {tier}", cwd=VERIF)
+            rc, out = sh(f"VERIF_REPO={wt} VERIF_EVIDENCE_DIR=/root/scratch/sv-evidence ./check {p} --tier {tier}", cwd=VERIF)
             lines = [l for l in out.split("\n") if l.startswith("VIOLATION") or l.startswith(p + " ")]
             sigs = []
             for l in lines:
